@@ -65,10 +65,18 @@ def gen_cases(rng, tier):
             pkg.append({'name': 'res%d' % r, 'fields': fields, 'rows': rows_enc(rows)})
         # a user-supplied temporal format with a bare %Y cannot represent years below 1000 unambiguously (strftime does not
         # pad them): such values only with the library's own default formats
-        small_year = any(isinstance(v, (datetime.date, datetime.datetime)) and v.year < 1000
-                         for r in pkg for row in rows_dec(r['rows']) for v in row.values())
+        # (so with the property in use, a column holding such a year is left without it and falls back to the defaults)
+        tfp = rng.chance(0.3)
+        tfp_fields = []
+        if tfp:
+            for r in pkg:
+                rows = rows_dec(r['rows'])
+                for nm, t in r['fields']:
+                    small = any(isinstance(row.get(nm), (datetime.date, datetime.datetime)) and row[nm].year < 1000 for row in rows)
+                    if t in ('date', 'time', 'datetime') and not small and rng.chance(0.7):
+                        tfp_fields.append([r['name'], nm])
         cases.append({'kind': 'roundtrip', 'pkg': pkg, 'format': rng.pick(['csv', 'csv', 'json']), 'zip': rng.chance(0.3),
-                      'hashpath': rng.chance(0.25), 'tfp': rng.chance(0.25) and not small_year})
+                      'hashpath': rng.chance(0.25), 'tfp': tfp, 'tfp_fields': tfp_fields})
     # the CSV layer alone: the model of Python's csv against the csv module, on tables and on arbitrary texts
     alpha = ['a', 'b', ',', '"', '\r', '\n', ' ', 'é']
     for i in range({'quick': 60, 'thorough': 600, 'search': 100}[tier]):
@@ -123,7 +131,7 @@ def run_impl(case):
         fields = []
         for nm, t in r['fields']:
             f = {'name': nm, 'type': t}
-            if case['tfp'] and t in ('date', 'time', 'datetime'):
+            if case['tfp'] and t in ('date', 'time', 'datetime') and ('tfp_fields' not in case or [r['name'], nm] in case['tfp_fields']):
                 f['outputFormat'] = {'date': '%d/%m/%Y', 'time': '%H.%M.%S', 'datetime': '%Y%m%dT%H%M%S'}[t]
             fields.append(f)
         res.append({'name': r['name'], 'fields': fields, 'rows': rows_dec(r['rows'])})
